@@ -325,7 +325,9 @@ func cmdPoolCheck(a Args) {
 		fmt.Printf("poolcheck: dir=%s sites=%d functions=%d violations=%d\n", dir, rep.Histories, rep.Steps, len(rep.Violations))
 	}()
 	fset := token.NewFileSet()
-	pkgs, err := parser.ParseDir(fset, dir, func(fi os.FileInfo) bool { return !strings.HasSuffix(fi.Name(), "_test.go") && !strings.HasPrefix(fi.Name(), "verif_hooks") }, 0)
+	pkgs, err := parser.ParseDir(fset, dir, func(fi os.FileInfo) bool {
+		return !strings.HasSuffix(fi.Name(), "_test.go") && !strings.HasPrefix(fi.Name(), "verif_hooks")
+	}, 0)
 	if err != nil {
 		panic(err)
 	}
